@@ -97,6 +97,11 @@ Allowed(i, devs) ==
   IF p = OMIT THEN DefaultMin(i, devs)..3
   ELSE IF Len(p) = 1 THEN {VerIdx(p[1])}
   ELSE VerIdx(p[1])..VerIdx(p[2])
+\* a version needs a cipher suite: TLS 1.3 has its own; of the suites in the rows only CBC-SHA exists before
+\* TLS 1.2 and only the ECDSA ones fit the (ECDSA) certificate of the rows
+ExpVers(i, devs) ==
+  LET S == ToSetS(i.ciphers) IN
+  {v \in Allowed(i, devs) : i.ciphers = OMIT \/ v = 3 \/ (v = 2 /\ S \cap CipherU # {}) \/ (v < 2 /\ CBC \in S)}
 ExpCiph(i, devs) == IF 2 \notin Allowed(i, devs) THEN {}
                     ELSE IF i.ciphers = OMIT THEN CipherU ELSE ToSetS(i.ciphers) \cap CipherU
 ExpCurv(i, devs) == IF 3 \notin Allowed(i, devs) THEN {}
@@ -110,7 +115,7 @@ RuleWith(i, devs) ==
   IF ConfigError(i) THEN ErrOut
   ELSE IF i.mode = "off" THEN OffOut
   ELSE IF i.mode = "none" THEN (IF "NoLoaderAccepted" \in devs THEN DeadOut ELSE ErrOut)
-  ELSE [err |-> FALSE, starttls |-> i.scope = "server", vers |-> Allowed(i, devs),
+  ELSE [err |-> FALSE, starttls |-> i.scope = "server", vers |-> ExpVers(i, devs),
         ciph |-> ExpCiph(i, devs), curv |-> ExpCurv(i, devs), names |-> TRUE]
 Rule(i) == RuleWith(i, {})
 RuleD(i) == RuleWith(i, Devs)
@@ -130,10 +135,10 @@ Viol(i, o) ==
   IN (IF ConfigError(i) /\ ~o.err THEN {"UnknownNameAccepted"} ELSE {})
      \cup (IF ~ConfigError(i) /\ i.mode # "none" /\ o.err THEN {"ValidConfigRefused"} ELSE {})
      \cup (IF i.mode = "off" /\ o.starttls THEN {"OffAdvertisesStarttls"} ELSE {})
-     \cup (IF i.scope = "server" /\ ok /\ o.starttls /\ Allowed(i, {}) # {} /\ o.vers = {}
+     \cup (IF i.scope = "server" /\ ok /\ o.starttls /\ ExpVers(i, {}) # {} /\ o.vers = {}
            THEN {"AdvertisedButUnusable"} ELSE {})
      \cup (IF i.scope = "server" /\ ok /\ live /\ ~o.starttls THEN {"TlsNotOffered"} ELSE {})
-     \cup (IF ok /\ live /\ o.vers # Allowed(i, {}) THEN {"VersionsNotAsConfigured"} ELSE {})
+     \cup (IF ok /\ live /\ o.vers # ExpVers(i, {}) THEN {"VersionsNotAsConfigured"} ELSE {})
      \cup (IF ok /\ live /\ i.ciphers # OMIT /\ o.ciph # ExpCiph(i, {}) THEN {"CiphersNotAsConfigured"} ELSE {})
      \cup (IF ok /\ live /\ i.curves # OMIT /\ o.curv # ExpCurv(i, {}) THEN {"CurvesNotAsConfigured"} ELSE {})
      \cup (IF ok /\ i.mode = "self" /\ o.vers # {} /\ ~o.names THEN {"SelfSignedWrongNames"} ELSE {})
